@@ -27,7 +27,8 @@ func genC04(rng *rand.Rand, c *Case) {
 	c.Cfg["guestpw"] = rng.Intn(3) / 2
 	c.Cfg["acctseed"] = rng.Intn(1 << 30)
 	// account history: 0 none, 1 "retired" renamed (new password), 2 password of "retired" changed, 3 "retired" deleted
-	c.Cfg["history"] = rng.Intn(4)
+	// 4: "retired" renamed to another spelling of the same file name ("/retired"), new password
+	c.Cfg["history"] = rng.Intn(5)
 	peers := 1 + rng.Intn(6)
 	for i := 0; i < peers; i++ {
 		// N: [handshake variant, credential variant, account index, first transaction type variant, tail length, seed, delay, banned]
@@ -107,6 +108,8 @@ func runC04(w *World) {
 				switch cfg["history"] {
 				case 1:
 					rep, ok = c.UpdateUsers([]UserEdit{{Kind: "rename", Login: "retired", NewLogin: "renamed", Name: "Renamed", Access: all, PwMode: PwNew, Pw: newpw}})
+				case 4:
+					rep, ok = c.UpdateUsers([]UserEdit{{Kind: "rename", Login: "retired", NewLogin: "/retired", Name: "Respelled", Access: all, PwMode: PwNew, Pw: newpw}})
 				case 2:
 					rep, ok = c.SetUser("retired", "Retired", all, PwNew, newpw)
 				case 3:
@@ -236,7 +239,10 @@ func runC04(w *World) {
 				if cfg["history"] == 1 {
 					login = "renamed"
 				}
-				match = cfg["history"] == 1 || cfg["history"] == 2
+				if cfg["history"] == 4 {
+					login = "/retired"
+				}
+				match = cfg["history"] == 1 || cfg["history"] == 2 || cfg["history"] == 4
 			case 8:
 				if len(pw) < 72 { // beyond 72 bytes bcrypt ignores the rest: outside the property's quantifier
 					pw, match = pw+"\x00", false
